@@ -45,8 +45,10 @@ def gen_script(rng, cid, cfg, length):
         out.append({"a": "password", "text": f.token() if rng.random() < 0.5 else f.password(True)})
         for sv in svcs:
             out.append({"a": "reply", "svc": sv, "text": "OK"})
-    tail = rng.choice(["hurry", "disconnect", "registered", "timeout", "reannounce"])
+    tail = rng.choice(["hurry", "disconnect", "registered", "timeout", "reannounce", "registered", "disconnect"])
     out.append({"a": tail})
+    if tail in ("hurry", "timeout"):
+        out.append({"a": rng.choice(["registered", "disconnect"])})
     if tail == "reannounce":
         out += [{"a": "hurry"}] + [{"a": "reply", "svc": sv, "text": "OK"} for sv in svcs]
     acts += out[:max(3, length)]
@@ -81,7 +83,10 @@ def to_event(s, cid, act, script):
         return {"t": "userinfo", "id": cid, "user": act["user"], "real": act["real"]}
     if a == "password":
         return {"t": "password", "id": cid, "text": act["text"]}
-    if a in ("hurry", "timeout", "disconnect", "registered"):
+    if a in ("disconnect", "registered"):
+        # routine traffic: the server reports T / D also for clients the daemon has already decided
+        return {"t": a, "id": cid}
+    if a in ("hurry", "timeout"):
         if cid not in s.open:
             return None
         return {"t": a, "id": cid}
@@ -134,6 +139,8 @@ def run_merge(b, cfg, scripts, order, audit_every=50):
                 sm[pt[1]] = len(sm) + 1
             return "X %s %x_S%d :%s" % (c["svc"], pt[0] & 0xffffffff, sm[pt[1]], c["text"])
         return line
+    sent_lines = []
+    all_out = []
     try:
         nsteps = 0
         for cid in order:
@@ -145,6 +152,8 @@ def run_merge(b, cfg, scripts, order, audit_every=50):
                 conv[cid].append((k, "skipped"))
                 continue
             out = s.do(ev)
+            sent_lines.append(proto.render(ev))
+            all_out += [l for l in (out or []) if not l.startswith("#verif")]
             nsteps += 1
             mine = []
             for ln in out or []:
@@ -164,7 +173,34 @@ def run_merge(b, cfg, scripts, order, audit_every=50):
     except Exception:
         s.kill()
         raise
+    run_merge.last_io = (sent_lines, all_out + [l for l in r.tail if not l.startswith("#verif")], s.config)
     return conv, audits, r, nsteps
+
+
+def batch_replay_differs(b, sent_lines, lock_out, cfg):
+    """The same input lines written in one go (no sync lines, no hooks): stdout must be the same as in lock-step."""
+    import daemon
+    data = ("\n".join(sent_lines) + "\n").encode("latin-1")
+    out, r = daemon.run_batch(b, cfg.text(b["moddir"]), data, leaks=True, timeout=20)
+    if not r.clean():
+        return "daemon unclean when the interleaved stream is written in one piece: %s" % (r.describe(),)
+    body = []
+    started = False
+    for l in out:
+        if not started:
+            # skip the start-up banner (V, a, A..., O)
+            if l.startswith("O ") or (l.startswith("A ") is False and l.startswith("V ") is False and l != "a"):
+                started = True
+                if l.startswith("O "):
+                    continue
+            else:
+                continue
+        body.append(l)
+    f = lambda ls: [l for l in ls if not l.startswith("S class ")]
+    if f(body) != f(lock_out):
+        k = next((i for i in range(min(len(body), len(lock_out))) if f(body)[i:i + 1] != f(lock_out)[i:i + 1]), min(len(body), len(lock_out)))
+        return "stdout differs at line %d between lock-step and one-piece delivery: %r vs %r" % (k, f(lock_out)[k:k + 2], f(body)[k:k + 2])
+    return None
 
 
 def _worker(a):
@@ -229,6 +265,14 @@ def _worker(a):
             if not au or not au[0].startswith("#verif audit ok"):
                 res["viol"].append(("C07", "table-audit", "table-audit", "request table audit failed: %s (order %s)" % (au, order),
                                     {"config": cfgj, "seed": seed, "order": order}))
+        if mi % 2 == 0:
+            sent_lines, lock_out, cfg_ = run_merge.last_io
+            why = batch_replay_differs(b, sent_lines, lock_out, cfg)
+            res["stats"]["batch_replays"] = res["stats"].get("batch_replays", 0) + 1
+            if why:
+                res["viol"].append(("C07", "one-piece-delivery", "one-piece-delivery", "%s\ninterleaving: %s\ninput:\n%s" % (why, order, "\n".join(sent_lines[:80])),
+                                    {"config": cfgj, "seed": seed, "order": order, "nclients": nclients, "length": length}))
+                break
         for cid in ids:
             res["stats"]["client_conversations_compared"] += 1
             if conv[cid] != ref[cid]:
@@ -295,7 +339,8 @@ def run(chk, tier, scale=1.0):
     chk.rule = ("k client scripts (3-6 clients x ~12 own events; 2 clients x 4 events with ALL 70 order-preserving merges; 10 clients) on distinct ids, replies addressed "
                 "symbolically to 'what I await from service s'; each script is run alone (reference conversation) and in random / round-robin / bursty order-preserving "
                 "interleavings; the projection of the daemon's output on each client (its id, X lines carrying its id; serial renumbered) grouped by the client's own events "
-                "must equal the reference, and no line about a client may appear in another client's step; guarded table audit every 50 steps; "
+                "must equal the reference, and no line about a client may appear in another client's step; every second interleaving is also written to a fresh daemon in ONE piece "
+                "(no sync lines) and must give the same stdout; guarded table audit every 50 steps; "
                 "a case = one interleaving of one script set (distinct by hash); non-trivial = conversations were compared")
     chk.require("distinct_interleavings", 300 * min(1.0, scale))
     chk.require("client_conversations_compared", 1000 * min(1.0, scale))
